@@ -207,7 +207,7 @@ def cases(draw):
         assume(_names_ok(pattern))
         return {"shape": shape, "kind": kind, "listing": L, "pattern": pattern, "edge": edge, "times": t, "r": r, "flags": list(full), "ext": ext}
     # meta
-    rel = draw(st.sampled_from(["unroll", "unroll", "range-eq-int", "spelling", "operand-deref", "operand-or"]))
+    rel = draw(st.sampled_from(["unroll", "unroll", "range-eq-int", "spelling", "operand-deref", "operand-or", "operand-not"]))
     n_ = draw(st.integers(0, 4))
     if rel == "unroll":
         p1 = [dA, attach(node, n_ if draw(st.booleans()) else {"min": n_, "max": n_}, spelling), dB]
@@ -228,6 +228,10 @@ def cases(draw):
             comp = parse_norm_mem(norm)
             keymap = {"a": "main_reg", "b": "register_multiplier", "c": "constant_multiplier", "k": "constant_offset"}
             opnode = {"$deref": {keymap[k]: v for k, v in comp.items()}}
+        elif rel == "operand-not":
+            # n consecutive operands none of which is the negated one (half of the time one of them is: both spellings then fail)
+            att, norm = draw(st.sampled_from([("%rax", "%rax"), ("$0x10", "0x10"), ("%r8d", "%r8d")]))
+            opnode = {"$not": [draw(st.sampled_from(["zz", "rbx", "0x77", norm.lstrip("%") if draw(st.booleans()) else "qq"]))]}
         else:
             att, norm = draw(st.sampled_from([("%rax", "%rax"), ("$0x10", "0x10"), ("%r8d", "%r8d")]))
             opnode = {"$or": [describe_operand(draw, norm) or "rax", "zz"]}
